@@ -121,7 +121,7 @@ SCRIPTS['spec_public'] = script_spec
 import itertools as _it, datetime as _dt
 
 ALPHABET = [['set', 'exp', '2031-01-01T00:00:00Z'], ['set', 'nbf', '2020-01-01T00:00:00Z'], ['set', 'iat', '2020-01-01T00:00:00Z'], ['set', 'iss', 'me'],
-            ['set', 'a', 1], ['ack'], ['build']]
+            ['set', 'a', 1], ['ack'], ['footer', 'f'], ['assertion', 'ia'], ['build']]
 
 
 def sequences(maxlen=4, protos_extra=()):
@@ -170,7 +170,7 @@ def oracle_builder(seq, outs, want=('c13', 'c17')):
 
 def confirm_builder(ses, v, want):
     r = v['replay']; protos = [r['proto']] if r.get('proto') else ['v4.local', 'v3.public', 'v2.local', 'v1.local', 'v3.local', 'v1.public', 'v2.public', 'v4.public']
-    seqs = sequences(int(r.get('maxlen', 4)))
+    seqs = sequences(int(r.get('maxlen', 3)))
     for proto in protos:
         for s_ in seqs:
             if proto in ('v3.local', 'v4.local', 'v3.public', 'v4.public') and False: pass
